@@ -218,7 +218,7 @@ def foreign(ctx, cname):
         if c.name in ("Ensemble", cname):
             names += [m for m in c.methods if m not in names]
     allowed_calls = {"update", "reset", "set_reference"}
-    allowed_reads = {"drift_state", "retraining_recs"}
+    allowed_reads = {"drift_state", "retraining_recs", "update", "reset", "set_reference"}   # the last three: the bound method taken in order to call it (the calls themselves are checked above)
     for m in names:
         tr = ctx.trace(cname, m)
         for e in member_calls(tr):
